@@ -498,7 +498,7 @@ def _run_history(ctx, job):
     from .. import session as S
     (hardware, qubits, nv_compiler), seq = job
     setting = f"{hardware} hardware, {qubits} qubits" + (", NV transpiler" if nv_compiler else "")
-    w = S.HostWorld(ctx, hardware, qubits, nv_compiler)
+    w = S.HostWorld(ctx, hardware, qubits, nv_compiler, epr=any(o_[0] in ("create", "recv") for o_ in seq))
     handles = []
     done = []
 
@@ -522,6 +522,12 @@ def _run_history(ctx, job):
             r_ = w.new_qubit()
             if r_[0] == "ok":
                 handles.append(r_[1])
+        elif op[0] in ("create", "recv"):
+            if op[0] == "recv":
+                w.expect_remote_pairs(op[1])
+            r_ = w.call(w.epr_socket, "create_keep" if op[0] == "create" else "recv_keep", number=op[1])
+            if r_[0] == "ok":
+                handles.extend(r_[1])
         elif op[0] == "flush":
             r_ = w.call(w.conn, "flush")
             if r_[0] == "ok":
@@ -558,6 +564,14 @@ def check_histories(ctx, rule="C09.H", thorough=False):
     jobs = []
     for cfg, live in settings:
         for seq in host_histories(live, depth):
+            jobs.append((cfg, seq))
+    # entanglement: pairs created / received (kept), alone, next to a live qubit, one request after another, with measurements and frees
+    epr_family = [(("create", 1),), (("create", 2),), (("recv", 1),), (("recv", 2),),
+                  (("new",), ("create", 1)), (("new",), ("flush",), ("create", 1)), (("new",), ("recv", 1)), (("new",), ("gate", 0), ("flush",), ("recv", 1), ("meas", 0)),
+                  (("create", 1), ("meas", 0), ("create", 1)), (("create", 1), ("flush",), ("create", 1), ("meas", 0)), (("create", 2), ("free", 0), ("new",)),
+                  (("recv", 1), ("measin", 0), ("flush",), ("free", 0), ("recv", 1)), (("create", 1), ("recv", 1)), (("create", 2), ("meas", 1), ("flush",), ("new",), ("meas", 0))]
+    for cfg in (("generic", 3, False), ("nv", 3, False), ("nv", 3, True)):
+        for seq in epr_family:
             jobs.append((cfg, seq))
     if thorough:
         for cfg, live in ((("generic", 3, False), 3), (("nv", 4, True), 3)):
